@@ -208,9 +208,17 @@ def nack_encoder(F, D, res):
                 for lr in I.loop_reports:
                     if lr.fn != nxt[0]:
                         continue
+                    # the word in progress: the carried variable into which some step ORs a `1 << amount` term
+                    # (identified by what is done to it, not by its name)
+                    mask_atoms = set()
                     for delta, new in lr.backs:
                         for a, nv in new.items():
-                            if "bitmask" in a[1] and nv is not None and nv != Lin.atom(a):
+                            if nv is not None and nv != Lin.atom(a) and any(
+                                    x[0] == "opq" and isinstance(x[1], tuple) and x[1][0] == "shl" for x in atoms_deep(nv)):
+                                mask_atoms.add(a)
+                    for delta, new in lr.backs:
+                        for a, nv in new.items():
+                            if a in mask_atoms and nv is not None and nv != Lin.atom(a):
                                 # bitmask' = bitmask | (1 << amt)
                                 okb = False
                                 for x in atoms_deep(nv):
@@ -224,7 +232,7 @@ def nack_encoder(F, D, res):
                                 steps += 1
                                 res.compare(okb, "nack-transition", nxt[0],
                                             "NACK encoder: a sequence number at distance d = (seq - base) mod 2^16 in 1..=16 sets bit d-1 of the current word", detail=f"{nv}"[:200], pc=delta)
-                            elif "bitmask" in a[1] and nv is not None:
+                            elif a in mask_atoms and nv is not None:
                                 # the word in progress is left as it is: only legitimate for a repeated base (d = 0)
                                 diffs = [y for l in delta if l[0] in ("le", "eq", "ne") for y in atoms_deep(l[1]) if y[0] == "mod" and y[2] == 65536]
                                 if diffs:
